@@ -842,6 +842,12 @@ func (e *Enc) oblige(class, desc, tag string, pos token.Pos, goal string) {
 		}
 	}
 	e.obls = append(e.obls, o)
+	// assert-then-assume: execution continues past a run-time check only if the check passed (otherwise it panics),
+	// so later program points may rely on it. The obligation itself was recorded with the assertions before this one.
+	switch class {
+	case "idx", "slice", "nil", "div0", "shift", "make", "assert", "mapnil":
+		e.assert(goal)
+	}
 }
 
 func (e *Enc) guardGoal(goal string) string {
